@@ -22,8 +22,16 @@ class Round:
         self.total_chips = total_chips      # all chips in play (sum starting)
         self.largest = 0 * street_min       # largest raise increment so far
         self.count = 0                      # completions/bets/raises so far
-        self.acted = set()                  # acted since the last full raise
-        self.short = []                     # consecutive all-in raise incr.
+        # Re-opening (WSOP live-action rule 129 / tournament rule 96, TDA 43):
+        # a player who has acted may raise again only when the wager has
+        # grown, since his own last action, by at least a full raise - one
+        # full wager or several all-in wagers that are each too small but
+        # add up "to a participant".  So the model remembers, per player, the
+        # wager he last answered; a full wager (anything that is not an
+        # all-in for less than the minimum) re-opens the round for everybody.
+        self.answered = {}                  # player -> wager when he acted
+        self.short_since_full = 0           # short all-ins since a full one
+        self.full_level = max(self.bets)    # the wager after the last full one
         self.bring_in = bring_in
         self.bring_in_pending = bool(first_street and bring_in)
         self.completion_pending = self.bring_in_pending
@@ -81,6 +89,22 @@ class Round:
     def bring_in_amount(self):
         return min(self.stacks[self.actor], self.bring_in)
 
+    def reopening_undecided(self):
+        """The statement's clause (an all-in raise smaller than a full raise
+        does not re-open the betting) is the no-limit / pot-limit rule (WSOP
+        tournament rule 96).  Limit play has its own half-bet rule (live-
+        action rule 129: an all-in wager of half a bet or more is treated as
+        a full bet, a smaller one is not) that the statement does not mention
+        and the engine does not implement - the pinned suite even fixes one
+        instance of it (test_all_ins: a stud completion all-in for 150 of 200
+        re-opens).  Whether a player who has acted may raise over a growth
+        below a full bet is therefore not judged in fixed-limit games."""
+        i = self.actor
+        if i is None or self.structure != 'FIXED_LIMIT' \
+                or i not in self.answered:
+            return False
+        return max(self.bets) - self.answered[i] < self.full_raise()
+
     def raise_refusal(self):
         """None when a completion/bet/raise is admissible, else the reason."""
         i = self.actor
@@ -88,8 +112,8 @@ class Round:
             return 'nobody to act'
         if self.cap is not None and self.count >= self.cap:
             return 'cap reached'
-        if self.short and sum(self.short) < self.largest \
-                and i in self.acted:
+        if i in self.answered and \
+                max(self.bets) - self.answered[i] < self.full_raise():
             return 'already acted, facing less than a full raise'
         if self.stacks[i] <= max(self.bets) - self.bets[i]:
             return 'covered'
@@ -99,12 +123,21 @@ class Round:
             return 'nobody could call more'
         return None
 
-    def min_raise_to(self):
-        i = self.actor
-        base = max(self.largest, self.street_min)
+    def full_raise(self):
+        """the size of a full raise now: the largest wager or raise of the
+        round, at least the street's minimum"""
+        return max(self.largest, self.street_min)
+
+    def full_raise_to(self):
+        base = self.full_raise()
         if not self.completion_pending:
             base = base + max(self.bets)
-        return min(self.effective_stack(i) + self.bets[i], base)
+        return base
+
+    def min_raise_to(self):
+        i = self.actor
+        return min(self.effective_stack(i) + self.bets[i],
+                   self.full_raise_to())
 
     def pot_raise_to(self):
         i = self.actor
@@ -129,9 +162,7 @@ class Round:
 
     # ---- transitions ------------------------------------------------------
     def _pop(self):
-        i = self.to_act.pop(0)
-        self.acted.add(i)
-        return i
+        return self.to_act.pop(0)
 
     def fold(self):
         i = self._pop()
@@ -142,6 +173,7 @@ class Round:
         i = self._pop()
         self.bets[i] += amt
         self.stacks[i] -= amt
+        self.answered[i] = max(self.bets)
         return amt
 
     def post_bring_in(self):
@@ -150,9 +182,13 @@ class Round:
         self.bets[i] += amt
         self.stacks[i] -= amt
         self.bring_in_pending = False
+        # bringing in rather than completing is the player's action: when
+        # everybody just calls, the round ends without an option for him
+        self.answered[i] = max(self.bets)
         return amt
 
     def raise_to(self, amount):
+        full_to = self.full_raise_to()
         i = self._pop()
         incr = amount - max(self.bets)
         delta = amount - self.bets[i]
@@ -163,11 +199,14 @@ class Round:
         order = [(i + k) % self.n for k in range(1, self.n)]
         self.to_act = [j for j in order
                        if self.live[j] and self.stacks[j] > 0]
-        if incr >= self.largest:
-            self.acted = {i}
+        # only an all-in can be for less than the minimum
+        full = self.stacks[i] > 0 or amount >= full_to
+        if full:
+            self.answered = {}
+            self.short_since_full = 0
+            self.full_level = amount
+        else:
+            self.short_since_full += 1
+        self.answered[i] = amount
         self.largest = max(self.largest, incr)
         self.count += 1
-        if self.stacks[i] > 0:
-            self.short = []
-        else:
-            self.short.append(incr)
